@@ -5,7 +5,7 @@ pub use nom;
 use nom::branch::alt;
 use nom::bytes::complete::tag;
 use nom::character::complete::{alpha1, digit1, hex_digit1, multispace0, multispace1};
-use nom::combinator::{map, map_opt, opt, recognize};
+use nom::combinator::{map, map_opt, opt, recognize, verify};
 use nom::error::{ErrorKind, ParseError};
 use nom::multi::{many0, many1};
 use nom::sequence::{delimited, preceded, terminated, tuple};
@@ -382,6 +382,14 @@ pub fn element(input: &str) -> IResult<&str, model::Element<'_>> {
     ))(input)
 }
 
+/// WFC: Unique Att Spec
+fn unique_att_spec(attributes: &[model::Attribute<'_>]) -> bool {
+    attributes
+        .iter()
+        .enumerate()
+        .all(|(i, a)| attributes[..i].iter().all(|b| a.name != b.name))
+}
+
 /// '\<' Name (S Attribute)* S? '>'
 ///
 /// [\[40\] STag](https://www.w3.org/TR/2008/REC-xml-20081126/#NT-STag)
@@ -391,7 +399,12 @@ fn stag(input: &str) -> IResult<&str, model::Element<'_>> {
     map(
         delimited(
             tag("<"),
-            tuple((qname, many0(preceded(multispace1, attribute)))),
+            tuple((
+                qname,
+                verify(many0(preceded(multispace1, attribute)), |v: &Vec<_>| {
+                    unique_att_spec(v)
+                }),
+            )),
             tuple((multispace0, tag(">"))),
         ),
         model::Element::from,
@@ -458,7 +471,12 @@ fn empty_entity_tag(input: &str) -> IResult<&str, model::Element<'_>> {
     map(
         delimited(
             tag("<"),
-            tuple((qname, many0(preceded(multispace1, attribute)))),
+            tuple((
+                qname,
+                verify(many0(preceded(multispace1, attribute)), |v: &Vec<_>| {
+                    unique_att_spec(v)
+                }),
+            )),
             tuple((multispace0, tag("/>"))),
         ),
         model::Element::from,
